@@ -776,7 +776,7 @@ fn case_line(f: &Feats, cached: bool, comp: char, expect: Option<&str>, frame: &
         eprintln!("{:016x} {}", fnv(e), e);
     }
     format!(
-        "f {} {} {} {} {} {} {} {}",
+        "f {} {} {} {} {} {} {} {} {}",
         f.rl.map(|x| x.to_string()).unwrap_or("-".into()),
         f.lwt.map(|x| x.to_string()).unwrap_or("-".into()),
         f.tab as u8,
@@ -784,8 +784,40 @@ fn case_line(f: &Feats, cached: bool, comp: char, expect: Option<&str>, frame: &
         cached as u8,
         comp,
         expect.map(|e| format!("{:016x}", fnv(e))).unwrap_or("-".into()),
-        hex(frame)
+        hex(frame),
+        uni_table(frame)
     )
+}
+
+/// Classes (Rust's `char::is_alphanumeric` / `is_whitespace`) of every non-ASCII scalar that occurs at any byte
+/// offset of the frame: a parameter of the model, which does not carry the Unicode tables.  `A` alphanumeric,
+/// `W` whitespace; scalars of neither class are omitted.
+pub fn uni_table(frame: &[u8]) -> String {
+    let mut seen: Vec<(Vec<u8>, char)> = Vec::new();
+    for i in 0..frame.len() {
+        if frame[i] < 0xC2 {
+            continue;
+        }
+        for k in 2..=4usize {
+            if i + k > frame.len() {
+                break;
+            }
+            if let Ok(st) = std::str::from_utf8(&frame[i..i + k]) {
+                let mut it = st.chars();
+                if let (Some(c), None) = (it.next(), it.next()) {
+                    let cls = if c.is_alphanumeric() { 'A' } else if c.is_whitespace() { 'W' } else { 'O' };
+                    if cls != 'O' && !seen.iter().any(|(b, _)| b == &frame[i..i + k]) {
+                        seen.push((frame[i..i + k].to_vec(), cls));
+                    }
+                }
+            }
+        }
+    }
+    if seen.is_empty() {
+        "-".to_owned()
+    } else {
+        seen.iter().map(|(b, c)| format!("{}:{}", hex(b), c)).collect::<Vec<_>>().join(",")
+    }
 }
 
 /// Extensions (tracing id, warnings, custom payload) in front of `body`; returns (flags, ext+body, canon, marks shift).
